@@ -47,6 +47,10 @@ CHECKS = {
    "same corpus and values; every encoder's output is compared byte for byte with an independent reference encoder written from the wire-format statement (encoding/binary), and every decoder is fed the reference encoding under every permutation of map entries (all n! for n <= 4) and must return the value",
    "held on the values executed; the reference codec encodes the repository's date convention (ticks since the Unix epoch), not .NET ticks",
    "runtime monitoring: differential oracle against an independent reference codec with per-byte role map"),
+ "C15": ("exploration",
+   "schemas of constants over every const type x literal form, enums at the limits of all base types, [flags] enums with seeded expression trees to depth 4 and opcodes in all spellings are generated under three option sets, compiled, and every generated constant's value and Go type is read back at run time through a registry inside the generated package and compared with the harness's own evaluation of the literal",
+   "held on the constants generated (984 quick / ~5000 thorough per run); flag expressions limited to precedence-independent ones; float literals with negative exponents are rejected by the tokenizer and hence outside 'accepted schemas'",
+   "runtime monitoring: compile-and-run readback of generated constants against an independent literal evaluator"),
 }
 DESIGN = {i: "DESIGN.md section 4, %s" % i for i in CHECKS}
 
